@@ -327,6 +327,11 @@ func (u *Unit) strEq(a, b *Term) *Term {
 		if u.strExt[k] {
 			break
 		}
+		if x.hasBV {
+			// inside a quantifier body: the instance would leave the bound variable free in a global
+			// axiom (the equality stays an uninterpreted atom there)
+			break
+		}
 		u.strExt[k] = true
 		conj := []*Term{tb.Eq(u.slen(x), tb.BV(64, int64(len(cs))))}
 		for i := 0; i < len(cs); i++ {
